@@ -21,7 +21,7 @@ def explore(env, base, bound, limit=100000):
             work.append({'first': f, 'pre': [], 'prio': pr})
     out = []
     while work and len(out) < limit:
-        sd = work.pop()
+        sd = work.pop(0)          # breadth first: fewer preemptions first
         case = dict(base)
         case['sched'] = sd
         obs = S.run_case(env, case)
